@@ -76,8 +76,8 @@ func init() {
 
 	register(&propertySpec{
 		ID: "C03", NeedCG: true, Quick: cfgAMD, Thorough: cfgAll,
-		Explanation: "Decides what the PAR2 verdict is computed from: the verdict predicates are evaluated exhaustively over their finite comparison domain against the table the property states, and the counters are incremented exactly on the nil / non-nil edge of the element they range over, the wrong-file counter exactly under !ok (DECIDE); a slice is recorded as found only for a non-empty CRC32+MD5 lookup of that very slice, packets are accepted only with their MD5 verified over (set id, type, body), packets of other sets are skipped and volume files are read with the decoder's set id (GATE); every per-file and per-slice flag computed while loading can reach the verdict, and is written to the record, not to a local copy of it (DEADST/LOCALCOPY). ",
-		NotDecided:  []string{"completeness of the slice search (rolling CRC, every offset) - C16", "that every location of a repeated slice content is credited", "the count of distinct recovery blocks beyond acceptance"},
+		Explanation: "Decides what the PAR2 verdict is computed from: the verdict predicates are evaluated exhaustively over their finite comparison domain against the table the property states, and the counters are incremented exactly on the nil / non-nil edge of the element they range over, the wrong-file counter exactly under !ok (DECIDE); a slice is recorded as found only for a non-empty CRC32+MD5 lookup of that very slice, packets are accepted only with their MD5 verified over (set id, type, body), packets of other sets are skipped and volume files are read with the decoder's set id (GATE); every per-file and per-slice flag computed while loading can reach the verdict, and is written to the record, not to a local copy of it (DEADST/LOCALCOPY); the expected-location map and the per-slice location sets accumulate - every place a slice content is expected, and every place it is found, is recorded (ACCUM).",
+		NotDecided:  []string{"completeness of the slice search (rolling CRC, every offset) - C16", "the count of distinct recovery blocks beyond acceptance"},
 		Run: func(w *World, r *Report, tier string) {
 			guard(r, "DECIDE", func() {
 				ruleDECIDEPredicates(w, r, map[string]bool{"par2": true})
@@ -86,6 +86,7 @@ func init() {
 			})
 			guard(r, "GATE", func() { ruleGATE(w, r, gateOpts{par2: true}) })
 			guard(r, "DEADST", func() { ruleDEADST(w, r) })
+			guard(r, "ACCUM", func() { ruleACCUM(w, r) })
 		},
 	})
 
@@ -133,10 +134,11 @@ func init() {
 
 	register(&propertySpec{
 		ID: "C07", NeedCG: true, Quick: cfgAMD, Thorough: cfgAll,
-		Explanation: "Decides the ownership and error structure of the coder: GenerateParity never writes its data shards; ReconstructData never writes parity and writes data only at depth 1 (nil rows replaced), never at byte depth (OWN, bottom-up write summaries incl. the assembly kernels and the unsafe casts); the dedicated not-enough-parity type is returned exactly on the fewer-inputs-than-data-shards edge and is the type the PAR2 classifier asserts (PAIR-ERRTYPE); a singular system is reported as an error in every frame (ERRFLOW on the coder chain); the workers' ranges are disjoint, word-aligned, cover the shard and are joined (RACE).",
+		Explanation: "Decides the ownership and error structure of the coder: GenerateParity never writes its data shards; ReconstructData never writes parity and writes data only at depth 1 (nil rows replaced), never at byte depth (OWN, bottom-up write summaries incl. the assembly kernels and the unsafe casts); the dedicated not-enough-parity type is returned exactly on the fewer-inputs-than-data-shards edge and is the type the PAR2 classifier asserts (PAIR-ERRTYPE); a singular system is reported as an error in every frame (ERRFLOW on the coder chain); row and element copies in the matrix code have provably equal lengths (COPYLEN); the workers' ranges are disjoint, word-aligned, cover the shard and are joined (RACE).",
 		NotDecided:  []string{"MDS reconstruction: that a nil error means the restored shards equal the originals", "row swaps and elimination as values"},
 		Run: func(w *World, r *Report, tier string) {
 			guard(r, "OWN", func() { ruleOWN(w, r, ownOpts{coder: true}) })
+			guard(r, "COPYLEN", func() { ruleCOPYLEN(w, r) })
 			guard(r, "PAIR", func() { rulePAIRERRTYPE(w, r) })
 			guard(r, "ERRFLOW", func() { ruleERRFLOW(w, r, errflowScope{fnNames: coderChain, tag: " on the coder chain"}, 4) })
 			guard(r, "RACE", func() { ruleRACE(w, r) })
@@ -195,10 +197,11 @@ func init() {
 
 	register(&propertySpec{
 		ID: "C11", NeedCG: true, Quick: cfgAMD, Thorough: cfgAll,
-		Explanation: "Decides 'matrix operations never modify their operands' for every exported gf2p16.Matrix constructor and method: receiver, matrix and slice arguments are never written, through any callee including the bulk kernels and the row views (OWN: mutators run only on fresh clones); and that a singular matrix is reported as an error in every frame up to the caller (ERRFLOW on the matrix chain).",
+		Explanation: "Decides 'matrix operations never modify their operands' for every exported gf2p16.Matrix constructor and method: receiver, matrix and slice arguments are never written, through any callee including the bulk kernels and the row views (OWN: mutators run only on fresh clones); that copies of rows and element arrays have provably equal lengths, so no row operation moves part of a row (COPYLEN); and that a singular matrix is reported as an error in every frame up to the caller (ERRFLOW on the matrix chain).",
 		NotDecided:  []string{"correctness of the inverse and of the row-reduced product as values", "that an error is reported exactly when the matrix is singular (pivot search as values)"},
 		Run: func(w *World, r *Report, tier string) {
 			guard(r, "OWN", func() { ruleOWN(w, r, ownOpts{matrix: true}) })
+			guard(r, "COPYLEN", func() { ruleCOPYLEN(w, r) })
 			guard(r, "ERRFLOW", func() { ruleERRFLOW(w, r, errflowScope{fnNames: matrixChain, tag: " on the matrix chain"}, 3) })
 		},
 	})
@@ -239,6 +242,7 @@ func init() {
 			guard(r, "WGUARD", func() { ruleWGUARD(w, r, false) })
 			guard(r, "REPORT", func() { ruleREPORT(w, r) })
 			guard(r, "DECIDE", func() { ruleDECIDECounts(w, r, map[string]bool{"par2": true, "par1": true}) })
+			guard(r, "ACCUM", func() { ruleACCUM(w, r) })
 		},
 	})
 
